@@ -4,6 +4,7 @@ use cdecao::verif::{binom, IterSelections};
 use serde_json::json;
 
 pub fn run(max_n: usize, shards: usize, outdir: &str) {
+    std::panic::set_hook(Box::new(|_| {}));
     let mut cases: Vec<Vec<String>> = vec![Vec::new(); shards];
     let mut meta: Vec<Vec<serde_json::Value>> = vec![Vec::new(); shards];
     let mut total_vectors = 0usize;
@@ -16,20 +17,38 @@ pub fn run(max_n: usize, shards: usize, outdir: &str) {
             let mut hints: Vec<u128> = Vec::new();
             let mut vals: Vec<Vec<usize>> = Vec::new();
             let mut hint_consistent = true;
-            loop {
-                let (lo, hi) = it.size_hint();
-                if hi != Some(lo) {
-                    hint_consistent = false;
+            // a panic inside the iterator (index out of bounds, arithmetic overflow) ends the enumeration of this (n, k); it is reported as
+            // an inconsistent case with what was yielded so far (disagreement with the model + specification failure)
+            let limit = 200_000usize;
+            let r = std::panic::catch_unwind(std::panic::AssertUnwindSafe(|| {
+                loop {
+                    let (lo, hi) = it.size_hint();
+                    if hi != Some(lo) {
+                        hint_consistent = false;
+                    }
+                    hints.push(lo as u128);
+                    match it.next() {
+                        Some(v) => vals.push(v.into_iter().copied().collect()),
+                        None => break,
+                    }
+                    if vals.len() > limit {
+                        hint_consistent = false; // more than any C(n, k) of the tier: the enumeration does not end
+                        break;
+                    }
                 }
-                hints.push(lo as u128);
-                match it.next() {
-                    Some(v) => vals.push(v.into_iter().copied().collect()),
-                    None => break,
-                }
+                // the hint after the final None
+                hints.push(it.size_hint().0 as u128);
+            }));
+            if r.is_err() {
+                hint_consistent = false;
+                vals.truncate(50);
+                hints.truncate(50);
             }
-            // the hint after the final None
-            hints.push(it.size_hint().0 as u128);
-            let b = binom(n, k);
+            if vals.len() > limit {
+                vals.truncate(50);
+                hints.truncate(50);
+            }
+            let b = std::panic::catch_unwind(|| binom(n, k)).unwrap_or(usize::MAX);
             total_vectors += vals.len();
             let s = shards_pick(idx, shards);
             cases[s].push(format!(
